@@ -3,6 +3,8 @@ package checks
 import (
 	"encoding/json"
 	"fmt"
+	"io"
+	"net/http"
 	"os"
 	"path/filepath"
 
@@ -447,6 +449,27 @@ func c09Binary(ev *vlib.Evidence) {
 			} else {
 				hc.Close()
 			}
+		}
+	}
+	// a full node that "connects" over plain HTTP has no connection the pool could ever call it
+	// on: whatever the pool answers, it must not end up with a host it then tries to instruct
+	{
+		ghost := vlib.NewIdentity("c09bghost", 0)
+		n := nonce(ghost.NodeID)
+		creq := vlib.ConnectReq(true, "geth", "enode://"+ghost.NodeID+"@203.0.113.77:30303", "")
+		all, _ := json.Marshal([]interface{}{vlib.RefSign(ghost.Key, "vipnode_connect", ghost.NodeID, n, creq), ghost.NodeID, n, creq})
+		resp, err := (&http.Client{Timeout: 20 * time.Second}).Post("http://"+addr+"/", "application/json", strings.NewReader(fmt.Sprintf(`{"jsonrpc":"2.0","id":1,"method":"vipnode_connect","params":%s}`, all)))
+		accepted := false
+		if err == nil {
+			b, _ := io.ReadAll(resp.Body)
+			resp.Body.Close()
+			accepted = !strings.Contains(string(b), `"error"`)
+		}
+		res, e := call(cc, client, 60, "vipnode_peer", pool.PeerRequest{Num: 100})
+		ev.Case("binary host-over-http", true)
+		ev.Count("binary-host-over-http-attempts", 1)
+		if strings.Contains(e, "failed to call") || strings.Contains(string(res), ghost.NodeID) {
+			ev.Violate("binary:host-without-a-connection-is-instructed-or-offered", map[string]interface{}{"http_connect_accepted": accepted, "peer_request_error": e, "peer_request_result": truncStr(string(res), 300)})
 		}
 	}
 	modes := []string{"close-frame-1000", "abrupt", "going-away-1001", "close-frame-1008"}
